@@ -117,7 +117,7 @@ pub fn init_req_strategy() -> BoxedStrategy<InitReq> {
         .boxed()
 }
 
-fn srv_strategy() -> BoxedStrategy<SrvCase> {
+pub fn srv_strategy() -> BoxedStrategy<SrvCase> {
     (init_req_strategy(), prop_oneof![3 => any::<u64>(), 1 => Just(u64::MAX), 1 => Just(0u64), 2 => any::<u64>().prop_map(|v| v | (1 << 30))], prop_oneof![9 => Just(None), 1 => (1i32..134).prop_map(Some)])
         .prop_map(|(req, want, fs_err)| SrvCase { req, want, fs_err })
         .boxed()
@@ -214,7 +214,7 @@ pub fn check_init_reply(out: &mut Outcome, tag: &str, req: &InitReq, rep: &InitR
     }
 }
 
-fn run_srv(cs: &SrvCase) -> Outcome {
+pub fn run_srv(cs: &SrvCase) -> Outcome {
     let mut out = Outcome::default();
     let res = match cs.fs_err {
         Some(e) => MockRes::Err(crate::mockfs::ErrSpec::Os(e)),
@@ -268,7 +268,7 @@ pub struct VfsCase {
     pub tree: TreeSpec,
 }
 
-fn vfs_strategy() -> BoxedStrategy<VfsCase> {
+pub fn vfs_strategy() -> BoxedStrategy<VfsCase> {
     let good = init_req_strategy().prop_map(|mut r| {
         r.major = 7;
         r.minor = 23 + r.minor % 20;
@@ -279,7 +279,7 @@ fn vfs_strategy() -> BoxedStrategy<VfsCase> {
         .boxed()
 }
 
-fn run_vfs(cs: &VfsCase) -> Outcome {
+pub fn run_vfs(cs: &VfsCase) -> Outcome {
     let mut out = Outcome::default();
     let mut o = VfsOptions::default();
     o.no_open = cs.no_open;
